@@ -752,7 +752,11 @@ func (fc *fileCtx) rewriteSelect(sel *ast.SelectStmt, anchor token.Pos) {
 			isBlank := func(e ast.Expr) bool { id, ok := e.(*ast.Ident); return ok && id.Name == "_" }
 			if comm.Tok == token.DEFINE {
 				if !isBlank(comm.Lhs[0]) {
-					ts, ok := fc.typeString(fc.info.TypeOf(u))
+					rt := fc.info.TypeOf(u)
+					if tup, isTuple := rt.(*types.Tuple); isTuple && tup.Len() > 0 {
+						rt = tup.At(0).Type() // v, ok := <-ch
+					}
+					ts, ok := fc.typeString(rt)
 					if !ok {
 						giveUp = "type of the received value cannot be named in this file"
 						continue
